@@ -32,6 +32,7 @@ type Contract struct {
 	HasAssigns bool
 	AssignsAny bool
 	Loops      map[int][]*Clause
+	Unroll     map[int]int
 	Assumed    bool // contract is trusted, body not verified
 	AssumedWhy string
 	Mode       string
@@ -155,6 +156,7 @@ func readContractLines(path string) ([]rawClause, error) {
 
 var pureRe = regexp.MustCompile(`^([A-Za-z_][A-Za-z0-9_]*)\s*\(([^)]*)\)\s*=\s*(.*)$`)
 var callsiteRe = regexp.MustCompile(`^([A-Za-z_][A-Za-z0-9_.]*)#([0-9]+)\s*:\s*(.*)$`)
+var unrollRe = regexp.MustCompile(`^([0-9]+)\s*:\s*unroll\s+([0-9]+)\s*$`)
 var loopRe = regexp.MustCompile(`^([0-9]+)\s*:\s*invariant\s+(.*)$`)
 
 // loadContracts parses one contract file. pkgPath=="" means fully qualified function names.
@@ -285,6 +287,15 @@ func (e *Engine) loadContractFile(path string, pkg *ssa.Package) error {
 					cur.Assigns = append(cur.Assigns, cl)
 				}
 			case "loop":
+				if um := unrollRe.FindStringSubmatch(rc.text); um != nil {
+					k, _ := strconv.Atoi(um[1])
+					n, _ := strconv.Atoi(um[2])
+					if cur.Unroll == nil {
+						cur.Unroll = map[int]int{}
+					}
+					cur.Unroll[k] = n
+					break
+				}
 				m := loopRe.FindStringSubmatch(rc.text)
 				if m == nil {
 					return fmt.Errorf("%s:%d: bad loop clause (want 'loop N: invariant E')", path, rc.line)
